@@ -1,0 +1,67 @@
+//go:build verif
+
+// Contracts (machine-checked by /verif/bin/govc) against the SNOW 3G
+// specification transcribed in /verif/spec/snow3gspec.  Comment-only file.
+
+package snow3g
+
+//@ func mulx
+//@ prop C07
+//@ ensures spec: result == snow3gspec.MULx(V, c)
+
+//@ func mulxPow
+//@ prop C07
+//@ ensures spec: result == snow3gspec.MULxPOW(V, int(i), c)
+
+//@ func s1
+//@ prop C07
+//@ ensures spec: result == snow3gspec.S1(w)
+
+//@ func s2
+//@ prop C07
+//@ ensures spec: result == snow3gspec.S2(w)
+
+//@ func mulAlpha
+//@ prop C07
+//@ ensures spec: result == snow3gspec.MULa(c)
+
+//@ func divAlpha
+//@ prop C07
+//@ ensures spec: result == snow3gspec.DIVa(c)
+
+//@ func lfsrInitialisationMode
+//@ prop C07
+//@ opaque snow3gspec.S1 snow3gspec.S2 snow3gspec.MULa snow3gspec.DIVa
+//@ ensures spec: lfsr.s == snow3gspec.LFSRInit(snow3gspec.State{S: old(lfsr.s)}, F).S
+//@ assigns &lfsr
+
+//@ func lfsrKeystreamMode
+//@ prop C07
+//@ opaque snow3gspec.S1 snow3gspec.S2 snow3gspec.MULa snow3gspec.DIVa
+//@ ensures spec: lfsr.s == snow3gspec.LFSRKey(snow3gspec.State{S: old(lfsr.s)}).S
+//@ assigns &lfsr
+
+//@ func clockFsm
+//@ prop C07
+//@ opaque snow3gspec.S1 snow3gspec.S2 snow3gspec.MULa snow3gspec.DIVa
+//@ ensures word: result == snow3gspec.FSMWord(s15, old(fsm.r))
+//@ ensures regs: fsm.r == snow3gspec.FSMNext(s5, old(fsm.r))
+//@ assigns &fsm
+
+//@ func InitSnow3g
+//@ prop C07
+//@ opaque snow3gspec.S1 snow3gspec.S2 snow3gspec.MULa snow3gspec.DIVa
+//@ ensures spec: (snow3gspec.State{S: lfsr.s, R: fsm.r}) == snow3gspec.Init(k, iv)
+//@ assigns &lfsr, &fsm
+
+//@ func GenerateKeystream
+//@ prop C07
+//@ opaque snow3gspec.S1 snow3gspec.S2 snow3gspec.MULa snow3gspec.DIVa
+//@ requires n: 0 <= n && n <= len(ks)
+//@ ensures state: (snow3gspec.State{S: lfsr.s, R: fsm.r}) == snow3gspec.Iter(snow3gspec.Step(old(snow3gspec.State{S: lfsr.s, R: fsm.r})), n)
+//@ ensures words: vc.Forall(0, n, func(j int) bool { return ks[j] == snow3gspec.Z(old(snow3gspec.State{S: lfsr.s, R: fsm.r}), j) })
+//@ assigns &lfsr, &fsm, ks
+//@ loop i invariant range (i int, n int): 0 <= i && i <= n
+//@ loop i invariant state (i int, old_lfsr Lfsr, old_fsm Fsm): (snow3gspec.State{S: lfsr.s, R: fsm.r}) == snow3gspec.Iter(snow3gspec.Step(snow3gspec.State{S: old_lfsr.s, R: old_fsm.r}), i)
+//@ loop i invariant words (i int, ks []uint32, old_lfsr Lfsr, old_fsm Fsm): vc.Forall(0, i, func(j int) bool { return ks[j] == snow3gspec.Z(snow3gspec.State{S: old_lfsr.s, R: old_fsm.r}, j) })
+//@ loop i decreases (i int, n int): n - i
